@@ -15,7 +15,7 @@ EXTENDS Bits, Sequences, SequencesExt, TLC
 
 \* the numbers of the statement
 RealK == [pilot |-> 2168, hdrPulses |-> 8063, dataPulses |-> 3223, sync1 |-> 667, sync2 |-> 735,
-          bit0 |-> 855, bit1 |-> 1710, pauseLen |-> 3500000, pauseMin |-> 1750000, pauseMax |-> 7000000, tol |-> 32, bits |-> 8]
+          bit0 |-> 855, bit1 |-> 1710, pauseLen |-> 3500000, pauseMin |-> 1750000, pauseMax |-> 7000000, tol |-> 32, bits |-> 8, slack |-> 0]
 
 \* ---------------------------------------------------------------------------------------------
 \* LD-BYTES.  A = expected flag byte, load = carry on entry (TRUE: LOAD, FALSE: VERIFY), IX, DE,
@@ -81,7 +81,9 @@ LdMemAfter(r, IX, blk, mem(_), writable(_), a) ==
 \*          "junk" (after a rewind issued while playing: not judged until the deck is stopped)
 \* A pulse of d T-states belongs to class c when c <= d <= c + tol.
 \* ---------------------------------------------------------------------------------------------
-In(K, d, nominal) == d >= nominal /\ d <= nominal + K.tol
+\* (K.slack: uncertainty of the instrument that measured d - 0 when the pulse generator is read after every step, the
+\* longest instruction when the level is sampled at instruction boundaries of a running machine)
+In(K, d, nominal) == d + K.slack >= nominal /\ d <= nominal + K.tol + K.slack
 
 ObInit == [blk |-> 1, stage |-> "lead", cnt |-> 0, byte |-> 1, bit |-> 1, half |-> 1, bad |-> "", decoded |-> 0]
 
